@@ -127,6 +127,13 @@ class Ctx:
     def note(self, s):
         self.notes.append(s)
 
+    def _rule_counts(self):
+        out = {}
+        for o in self.obligations:
+            r = o["key"].split(":")[0]
+            out[r] = out.get(r, 0) + 1
+        return out
+
     # ---------------------------------------------------------------- finish
     def finish(self):
         wall = time.time() - self.t0
@@ -159,6 +166,7 @@ class Ctx:
                         "current tree; non-trivial = the instance's anchor was found and the obligation inspected "
                         "at least one call site / branch / store; distinct by obligation key",
                 "rules": self.rules,
+                "rule_instances": self._rule_counts(),
                 "samples": samples,
                 "obligations": len(self.obligations),
                 "discharged": sum(1 for o in self.obligations if o["ok"]),
